@@ -31,6 +31,7 @@ type vfPipe struct {
 	onClose func(p *vfPipe) error
 	opens   int
 	closes  int
+	gen     int // connection generation: a Read blocked across a Close fails, as on a real socket
 	// writeIsEvent: a client write counts as an event a waiting peer may react to
 	writeIsEvent bool
 }
@@ -73,6 +74,7 @@ func (p *vfPipe) Close() error {
 		return errVfClosed
 	}
 	p.open = false
+	p.gen++
 	return nil
 }
 
@@ -86,9 +88,10 @@ func (p *vfPipe) Read(b []byte) (int, error) {
 	if vsched.Killed() {
 		return 0, errVfClosed
 	}
+	gen := p.gen
 	for {
 		p.obj.Read()
-		if !p.open {
+		if !p.open || p.gen != gen {
 			return 0, errVfClosed
 		}
 		if len(p.inbound) > 0 {
@@ -110,7 +113,7 @@ func (p *vfPipe) Read(b []byte) (int, error) {
 		}
 		seen := p.epoch
 		vsched.WaitUntil(p.obj, func() bool {
-			return len(p.inbound) > 0 || p.readErr != nil || !p.open || p.epoch != seen
+			return len(p.inbound) > 0 || p.readErr != nil || !p.open || p.gen != gen || p.epoch != seen
 		})
 		if vsched.Killed() {
 			return 0, errVfClosed
